@@ -87,6 +87,8 @@ def generate(ck):
                 base["Sw"] = 0.1
             else:
                 t = {"kind": "synthetic", "family": str(rng.choice(["constant", "linear", "kinked"])), "prm": [float(v) for v in rng.random(3)], "n": int(rng.choice([8, 40, 300])), "p_lo": float(rng.uniform(10, 150)), "p_hi": float(rng.uniform(9500, 12000)), "grid": str(rng.choice(["uniform", "nonuniform"])), "seed": int(rng.integers(0, 10**6)), "Sw": base["Sw"]}
+            if t["kind"] == "synthetic" and t["seed"] % 4 == 2:
+                t["family"] = "condensate"  # rows with So exactly 0 whose gas carries vaporised oil (no draw consumed)
             descs.append(dict(base, kind="table", table=t, relperm=[float(rng.choice([1.0, 2.0, 2.5])), 2.0, float(rng.choice([1.0, 3.0])), float(rng.uniform(0, 0.1)), float(base["Sw"] + rng.uniform(0, 0.1)), float(rng.uniform(0, 0.1)), 1.0, float(rng.uniform(0.2, 1)), float(rng.uniform(0.5, 1))]))
     # one phase untracked while the tracked ones are light: a stand-in density for the untracked phase (1.0,
     # say) would dominate storage and mobility instead of hiding inside the tolerance
